@@ -213,7 +213,7 @@ GROUPS = {
     "silence": ("GenSilence.v", "TieSilence.v", ["tie_make_silence"]),
     "buf": ("GenBuf.v", "TieBuf.v", ["tie_buf_read", "tie_buf_setpos", "tie_buf_getpos", "tie_buf_getpos_ms"]),
     "fmt": ("GenFmt.v", "TieFmt.v", ["tie_fields"]),
-    "reader": ("GenReader.v", "TieReader.v", ["tie_reader_params", "tie_lim_read", "tie_rec_read", "tie_fixed_read"]),
+    "reader": ("GenReader.v", "TieReader.v", ["tie_reader_params", "tie_lim_read", "tie_rec_read", "tie_fixed_read", "tie_ov_first", "tie_ov_next"]),
     "loops": ("GenLoops.v", "TieLoops.v", ["tie_run_turn", "tie_stop_requested", "tie_tok_read", "tie_programs"]),
 }
 
@@ -1149,6 +1149,113 @@ def ret_layer(state_attr):
     return ret
 
 
+class OverlapPure(ReaderPure):
+    """one resumption of the generator _OverlapAudioReader._iter_blocks_with_overlap: `yield v` ends the resumption with the
+    value handed to read() and the generator's live state (the overlap cache); blocks are lists of whole samples, so
+    block[self._hop_size * sw * ch:] drops the first hop SAMPLES and cache + block concatenates; the source is open
+    (the `while not self.is_open(): yield AudioIOError` guard is not entered)."""
+    phase = "first"      # "first": from the beginning to the first yield;  "next": one turn of the `while True:` loop
+
+    def truthy(self, node, v):
+        if v.ty == "block":
+            return V("(nonempty %s)" % v.text, "bool")
+        return super().truthy(node, v)
+
+    def expr(self, e, env, binds):
+        if isinstance(e, ast.Subscript) and isinstance(e.slice, ast.Slice) and e.slice.upper is None and e.slice.step is None and e.slice.lower is not None:
+            a = self.expr(e.value, env, binds)
+            if a.ty == "block":
+                lo = self.expr(e.slice.lower, env, binds)
+                if lo.ty != "hopbytes":
+                    bad(e, "a block is sliced from something else than the hop size in bytes")
+                return V("(skipn (Z.to_nat H) %s)" % a.text, "block")
+        if isinstance(e, ast.BinOp) and isinstance(e.op, ast.Add):
+            a = self.expr(e.left, env, binds)
+            if a.ty == "block":
+                b = self.expr(e.right, env, binds)
+                if b.ty != "block":
+                    bad(e, "block + %s" % b.ty)
+                return V("(%s ++ %s)" % (a.text, b.text), "block")
+        if isinstance(e, ast.BinOp) and isinstance(e.op, ast.Mult):
+            # self._hop_size * self._audio_source.sw * self._audio_source.ch, in any order
+            fs = []
+            def flat(x):
+                if isinstance(x, ast.BinOp) and isinstance(x.op, ast.Mult):
+                    flat(x.left); flat(x.right)
+                else:
+                    fs.append(ast.unparse(x))
+            flat(e)
+            if sorted(fs) in (sorted(["self._hop_size", "self._audio_source.sw", "self._audio_source.ch"]), sorted(["self._hop_size", "self.sw", "self.ch"])):
+                return V("H", "hopbytes")
+        return super().expr(e, env, binds)
+
+    def block(self, stmts, env, k):
+        st = stmts[0] if stmts else None
+        if isinstance(st, ast.While) and ast.unparse(st.test) == "not self.is_open()" and len(st.body) == 1 and isinstance(st.body[0], ast.Expr) \
+                and isinstance(st.body[0].value, ast.Yield) and not st.orelse:
+            return self.block(stmts[1:], env, k)          # open source: guard not entered
+        if isinstance(st, ast.Expr) and isinstance(st.value, ast.Yield):
+            v = NONE if st.value.value is None else self.expr(st.value.value, env, [])
+            return self.spec.ret(self, v, env, st)      # the resumption ends here; what follows is the next resumption
+        if isinstance(st, ast.While) and isinstance(st.test, ast.Constant) and st.test.value is True:
+            bad(st, "the loop is reached without a yield before it")
+        if isinstance(st, ast.Continue):
+            bad(st, "continue before a yield in this turn")
+        return super().block(stmts, env, k)
+
+
+def ret_gen(tr, v, env, node):
+    """(generator state after the resumption, value handed to read())"""
+    if isinstance(node, ast.Return):
+        if v.ty != "none":
+            bad(node, "the generator returns a value")
+        return "(GDone, None)"
+    if isinstance(node, ast.FunctionDef):
+        bad(node, "a resumption of the generator ends without a yield")
+    cache = env.get("cache")
+    if v.ty == "none":
+        # `yield None`: the loop goes on with the same cache
+        if cache is None or cache.ty != "block":
+            bad(node, "yield None outside the loop")
+        return "(GRun %s, None)" % cache.text
+    if v.ty != "block":
+        bad(node, "the generator yields %s" % v.ty)
+    if cache is None or cache.ty != "block":
+        bad(node, "no overlap cache at a yield")
+    return "(GRun %s, Some %s)" % (cache.text, v.text)
+
+
+def gen_overlap(util):
+    cls = next((n for n in util.body if isinstance(n, ast.ClassDef) and n.name == "_OverlapAudioReader"), None)
+    g = next((m for m in (cls.body if cls else []) if isinstance(m, ast.FunctionDef) and m.name == "_iter_blocks_with_overlap"), None)
+    if g is None:
+        raise TranslationError("_OverlapAudioReader._iter_blocks_with_overlap not found")
+    body = [x for x in g.body if not (isinstance(x, ast.Expr) and isinstance(x.value, ast.Constant))]
+    loops = [i for i, x in enumerate(body) if isinstance(x, ast.While) and isinstance(x.test, ast.Constant) and x.test.value is True]
+    if len(loops) != 1 or loops[0] != len(body) - 1 or body[-1].orelse:
+        bad(g, "expected the generator to end with exactly one `while True:` loop")
+    pro, loop = body[:-1], body[-1]
+    if not (pro and isinstance(pro[-1], ast.Expr) and isinstance(pro[-1].value, ast.Yield)):
+        bad(g, "expected a yield right before the loop")
+    # the loop may only read what the prologue leaves: the cache and the hop size in bytes
+    out = []
+    f1 = ast.parse("def ov_first(self):\n    pass").body[0]; f1.body = pro
+    sp = Spec("ov_first_gen", [], ret_gen, self_attrs={"_block_size": ("W", "Z")})
+    sp.extra_params = ["(W H : Z)"]; sp.ret_type = "@gstate S * option (list S)"
+    out.append(OverlapPure(ast.fix_missing_locations(f1), sp, module=util, cls=cls).translate())
+    # names the loop body reads before writing them
+    hop_names = [t.id for x in pro if isinstance(x, ast.Assign) and len(x.targets) == 1 and isinstance(x.targets[0], ast.Name)
+                 for t in [x.targets[0]] if "self._hop_size" in ast.unparse(x.value)]
+    f2 = ast.parse("def ov_next(self, cache):\n    pass").body[0]
+    f2.body = [x for x in pro if isinstance(x, ast.Assign) and len(x.targets) == 1 and isinstance(x.targets[0], ast.Name) and x.targets[0].id in hop_names] + list(loop.body)
+    sp = Spec("ov_next_gen", [("cache", "block")], ret_gen, self_attrs={"_hop_size": ("H", "Z"), "_block_size": ("W", "Z")})
+    sp.extra_params = ["(W H : Z)"]; sp.ret_type = "@gstate S * option (list S)"
+    tr = OverlapPure(ast.fix_missing_locations(f2), sp, module=util, cls=cls)
+    tr.phase = "next"
+    out.append(tr.translate())
+    return out
+
+
 def gen_reader(repo):
     util = ast.parse(open(os.path.join(repo, "auditok", "util.py")).read())
     out = list(HEADER)
@@ -1182,6 +1289,7 @@ def gen_reader(repo):
     sp.extra_params = ["(W : Z)"]
     sp.ret_type = "option (list S)"
     out.append(ReaderPure(m, sp, module=util, cls=c).translate())
+    out.extend(gen_overlap(util))
     out.append("End Lay.\n")
     return "\n".join(out)
 
